@@ -309,4 +309,15 @@ def equal(code_expr: ast.expr, spec_text: str, rename_code: Optional[Dict[str, s
         return None, f"NORM: {t}", "", []
     ns = Normalizer(rename_spec)
     fs = ns.form(parse_expr(spec_text))
-    return fc.equals(fs), fc.text(), fs.text(), fc.notes
+    verdict = fc.equals(fs)
+    if not verdict:
+        # a mismatch is only definite inside the algebra: if the two sides use different UNINTERPRETED
+        # functions (norm.sf instead of 1 - norm.cdf, x.sum() instead of np.sum(x) ...) nothing is decided
+        def call_heads(norm):
+            return {a.split("(", 1)[0] for a in norm.atoms if "(" in a and not a.startswith("REF[")}
+
+        # (a function of the specification replaced by ANOTHER function; a function merely added where the
+        # specification has a leaf - np.sum(counts) for the total, sqrt(v, out=v) for sqrt(v) - stays definite)
+        if call_heads(nc) - call_heads(ns) and call_heads(ns) - call_heads(nc):
+            return None, "NORM: different uninterpreted functions " + str(sorted(call_heads(nc) ^ call_heads(ns))) + " :: " + fc.text()[:200], fs.text(), fc.notes
+    return verdict, fc.text(), fs.text(), fc.notes
